@@ -1,147 +1,72 @@
-import XPathV.Lemmas.KeyInj
-import XPathV.Generated.ExtraFacts
-import XPathV.Model.Api
-import XPathV.Lemmas.Facts
+import XPathV.Lemmas.C11Base
+import XPathV.Lemmas.UnionSem
 /-!
-# C11 — union yields the set union, each node exactly once
+# C11 — union yields the set union, each node exactly once (property-level theorems)
+
+`Lemmas/C11Base.lean` (same namespace) holds the plan-level theorem (`C11_union`: de-duplication by
+key), the structured-key injectivity (`key_injective`), the parser fact for the sequence form and
+the T0 theorem over the regenerated key recipe; `Lemmas/UnionSem.lean` takes them through the
+builder and against the oracle.
+
+Operands: `Frag true` — paths over the twelve axes whose start and steps may carry boolean-valued
+predicates (as in C02).  Hypotheses: well-formed document, valid context node, navigator exposing
+namespace URIs, NoFnvCollision (`HashInj`; discharged structurally by `key_injective` up to the
+64-bit FNV hash of the rendered key).
 -/
 namespace XPathV.Theorems.C11
-open XPathV XPathV.Model XPathV.Facts
+open XPathV XPathV.Model XPathV.Facts XPathV.PathSem XPathV.PredSem XPathV.UnionSem NumAlg
 
 variable {F : Type} [NumAlg F]
 
-/-- `dedupByKey` keeps only members of its input -/
-theorem dedup_subset (key : Ref → UInt64) (l : List Ref) (seen : List UInt64) :
-    ∀ x ∈ dedupByKey key l seen, x ∈ l := by
-  induction l generalizing seen with
-  | nil => intro x hx; simp [dedupByKey] at hx
-  | cons r rs ih =>
-    intro x hx
-    simp only [dedupByKey] at hx
-    split at hx
-    · exact List.mem_cons_of_mem _ (ih _ x hx)
-    · simp only [List.mem_cons] at hx
-      rcases hx with rfl | hx
-      · exact List.mem_cons_self
-      · exact List.mem_cons_of_mem _ (ih _ x hx)
+/-- **C11 (main theorem, through the builder)**: the plan the builder makes of `A | B` yields a
+sequence without repetition whose members are exactly the nodes the oracle returns for `A` or for
+`B`, whatever their overlap; the oracle's value of `A | B` has the same members, each once -/
+theorem C11_main {d : Doc} (wf : WF d) (cfg : ECfg) (hns : cfg.nsIface = true) (hinj : HashInj d cfg)
+    (regexOk : RegexOk) (limit : Nat) (A B : Ast) (hA : Frag true A) (hB : Frag true B) (fl : Flags)
+    (st : BState) (o : BOut) (hb : build regexOk limit true false (.oper "|" A B) fl st = .ok o)
+    (c : Ref) (hc : validRef d c = true) :
+    ∃ out nsA gA nsB gB nsU,
+      sel (F := F) d cfg o.q c = .ok out ∧ (refs out).Nodup ∧
+      Spec.eval (F := F) d A ⟨c, 1, 1⟩ = .ok (.val (.nodes nsA) gA) ∧
+      Spec.eval (F := F) d B ⟨c, 1, 1⟩ = .ok (.val (.nodes nsB) gB) ∧
+      (∀ x, x ∈ refs out ↔ x ∈ nsA ∨ x ∈ nsB) ∧
+      Spec.eval (F := F) d (.oper "|" A B) ⟨c, 1, 1⟩ = .ok (.val (.nodes nsU) none) ∧
+      nsU.Nodup ∧ (∀ x, x ∈ nsU ↔ x ∈ nsA ∨ x ∈ nsB) ∧ (∀ x, x ∈ refs out ↔ x ∈ nsU) :=
+  UnionSem.C11_main wf cfg hns hinj regexOk limit A B hA hB fl st o hb c hc
 
-/-- every output key is new: outputs have pairwise distinct keys, none of them in `seen` -/
-theorem dedup_keys_fresh (key : Ref → UInt64) (l : List Ref) (seen : List UInt64) :
-    (∀ x ∈ dedupByKey key l seen, key x ∉ seen) ∧ ((dedupByKey key l seen).map key).Nodup := by
-  induction l generalizing seen with
-  | nil => simp [dedupByKey]
-  | cons r rs ih =>
-    simp only [dedupByKey]
-    split
-    · exact ih seen
-    · rename_i hns
-      have ⟨h1, h2⟩ := ih (key r :: seen)
-      refine ⟨?_, ?_⟩
-      · intro x hx
-        simp only [List.mem_cons] at hx
-        rcases hx with rfl | hx
-        · simpa using hns
-        · have := h1 x hx
-          simp only [List.mem_cons, not_or] at this
-          exact this.2
-      · simp only [List.map_cons, List.nodup_cons]
-        refine ⟨?_, h2⟩
-        intro hmem
-        obtain ⟨y, hy, hky⟩ := List.mem_map.mp hmem
-        have := h1 y hy
-        simp only [List.mem_cons, not_or] at this
-        exact this.1 hky
+/-- **n-ary**: `p₀ | p₁ | … | pₙ` (left-nested, as parsed): every node of some `pᵢ`, nothing else,
+each exactly once, on both sides -/
+theorem C11_nary {d : Doc} (wf : WF d) (cfg : ECfg) (hns : cfg.nsIface = true) (hinj : HashInj d cfg)
+    (regexOk : RegexOk) (limit : Nat) (p : Ast) (ps : List Ast) (hp : Frag true p)
+    (hps : ∀ q ∈ ps, Frag true q) (hne : ps ≠ []) (st : BState) (o : BOut)
+    (hb : build regexOk limit true false (unionOf p ps) {} st = .ok o)
+    (c : Ref) (hc : validRef d c = true) :
+    ∃ out ns g, sel (F := F) d cfg o.q c = .ok out ∧ (refs out).Nodup ∧
+      Spec.eval (F := F) d (unionOf p ps) ⟨c, 1, 1⟩ = .ok (.val (.nodes ns) g) ∧ ns.Nodup ∧
+      (∀ x, x ∈ refs out ↔ ∃ q ∈ p :: ps, x ∈ nodesAt d F q c) ∧
+      (∀ x, x ∈ ns ↔ ∃ q ∈ p :: ps, x ∈ nodesAt d F q c) :=
+  UnionSem.C11_nary wf cfg hns hinj regexOk limit p ps hp hps hne st o hb c hc
 
-/-- with an injective key nothing is lost: every input node is in the output -/
-theorem dedup_complete (key : Ref → UInt64) (l : List Ref) (seen : List UInt64)
-    (hinj : ∀ a ∈ l, ∀ b ∈ l, key a = key b → a = b) :
-    ∀ x ∈ l, key x ∉ seen → x ∈ dedupByKey key l seen := by
-  induction l generalizing seen with
-  | nil => intro x hx; simp at hx
-  | cons r rs ih =>
-    intro x hx hns
-    simp only [dedupByKey]
-    have hinj' : ∀ a ∈ rs, ∀ b ∈ rs, key a = key b → a = b :=
-      fun a ha b hb => hinj a (List.mem_cons_of_mem _ ha) b (List.mem_cons_of_mem _ hb)
-    simp only [List.mem_cons] at hx
-    split
-    · rename_i hs
-      rcases hx with rfl | hx
-      · simp at hs; exact absurd hs hns
-      · exact ih seen hinj' x hx hns
-    · rcases hx with rfl | hx
-      · exact List.mem_cons_self
-      · by_cases hk : key x = key r
-        · have := hinj x (List.mem_cons_of_mem _ hx) r List.mem_cons_self hk
-          subst this; exact List.mem_cons_self
-        · apply List.mem_cons_of_mem
-          apply ih (key r :: seen) hinj' x hx
-          simp only [List.mem_cons, not_or]
-          exact ⟨hk, hns⟩
+/-- **sequence form `p/(s, t, …)`**: the tree the parser produces (`seqLoop_is_seqForm`) is built
+into a plan that yields exactly the nodes reached by some member step from some node of `p`, each
+once; the oracle agrees -/
+theorem C11_sequence {d : Doc} (wf : WF d) (cfg : ECfg) (hns : cfg.nsIface = true) (hinj : HashInj d cfg)
+    (regexOk : RegexOk) (limit : Nat) (p : Ast) (hp : Frag true p) (s : SeqStep)
+    (ss : List SeqStep) (hs : StepOK s) (hss : ∀ t ∈ ss, StepOK t) (st : BState) (o : BOut)
+    (hb : build regexOk limit true false (seqForm p s ss) {} st = .ok o)
+    (c : Ref) (hc : validRef d c = true) :
+    ∃ out ns g, sel (F := F) d cfg o.q c = .ok out ∧
+      Spec.eval (F := F) d (seqForm p s ss) ⟨c, 1, 1⟩ = .ok (.val (.nodes ns) g) ∧
+      (∀ x, x ∈ refs out ↔ x ∈ ns) ∧
+      (∀ x, x ∈ ns ↔ ∃ t ∈ s :: ss, ∃ n ∈ nodesAt d F p c, x ∈ nodesAt d F (stepOn .none t) n) ∧
+      (ss ≠ [] → (refs out).Nodup ∧ ns.Nodup) :=
+  UnionSem.C11_sequence wf cfg hns hinj regexOk limit p hp s ss hs hss st o hb c hc
 
-theorem nodup_of_map {α β : Type} (f : α → β) (l : List α) (h : (l.map f).Nodup) : l.Nodup := by
-  induction l with
-  | nil => simp
-  | cons a t ih =>
-    simp only [List.map_cons, List.nodup_cons] at h ⊢
-    exact ⟨fun ha => h.1 (List.mem_map.mpr ⟨a, ha, rfl⟩), ih h.2⟩
-
-/-- **union**: given collision-free identity hashes on the nodes involved, `A | B` returns exactly
-the nodes of A and B, each once -/
-theorem C11_union (d : Doc) (cfg : ECfg) (l r : Plan) (c : Ref) (a b : List Item)
-    (ha : sel (F := F) d cfg l c = .ok a) (hb : sel (F := F) d cfg r c = .ok b)
-    (hinj : ∀ x ∈ (a ++ b).map (·.r), ∀ y ∈ (a ++ b).map (·.r), identityHash d cfg x = identityHash d cfg y → x = y) :
-    ∃ out, sel (F := F) d cfg (.union l r) c = .ok out ∧
-      (∀ x, x ∈ out.map (·.r) ↔ (x ∈ a.map (·.r) ∨ x ∈ b.map (·.r))) ∧ (out.map (·.r)).Nodup := by
-  refine ⟨plain (dedupByKey (identityHash d cfg) ((a ++ b).map (·.r)) []), ?_, ?_, ?_⟩
-  · simp [sel, ha, hb, bind, Except.bind]
-  · intro x
-    have hp : (plain (dedupByKey (identityHash d cfg) ((a ++ b).map (·.r)) [])).map (·.r) =
-        dedupByKey (identityHash d cfg) ((a ++ b).map (·.r)) [] := by
-      simp [plain, List.map_map, Function.comp_def]
-    rw [hp]
-    constructor
-    · intro hx
-      have := dedup_subset _ _ _ x hx
-      simpa [List.map_append] using this
-    · intro hx
-      apply dedup_complete _ _ _ hinj
-      · simpa [List.map_append] using hx
-      · simp
-  · have hp : (plain (dedupByKey (identityHash d cfg) ((a ++ b).map (·.r)) [])).map (·.r) =
-        dedupByKey (identityHash d cfg) ((a ++ b).map (·.r)) [] := by
-      simp [plain, List.map_map, Function.comp_def]
-    rw [hp]
-    have := (dedup_keys_fresh (identityHash d cfg) ((a ++ b).map (·.r)) []).2
-    exact nodup_of_map _ _ this
-
-/-- the sequence form `p/(a, b)` is parsed to the same operator node as `|` -/
-theorem sequence_is_union (f : Nat) (cfg : PCfg) (inp opnd o2 : Ast) (st st1 st2 : PState)
-    (hc : st.s.typ = .comma) (hn : st.next = .ok st1) (h2 : parseStep f cfg inp st1 = .ok (o2, st2)) :
-    seqLoop (f+1) cfg inp opnd st = seqLoop f cfg inp (.oper "|" opnd o2) st2 := by
-  simp [seqLoop, hc, hn, h2, bind, Except.bind]
-
-/-- T0: the identity key is rendered as the model's `identityKey` assumes: length-prefixed prefix,
-local name (and value), then the sibling-index path -/
-theorem identity_key_recipe_ok :
-    Generated.hashKeyCases = ["AttributeNode,TextNode,CommentNode: writeKeyPart(&sb,n.Prefix()); writeKeyPart(&sb,n.LocalName()); writeKeyPart(&sb,n.Value())",
-      "ElementNode: writeKeyPart(&sb,n.Prefix()); writeKeyPart(&sb,n.LocalName())"] ∧
-    Generated.writeKeyPartSrc = "{sb.WriteString(strconv.Itoa(len(s)))sb.WriteByte(':')sb.WriteString(s)}" := ⟨rfl, rfl⟩
-
-/-! ## The identity key identifies nodes -/
-
-/-- **key injectivity**: on a well-formed document whose elements have no two attributes with the same
-(prefix, name) and no attribute with an empty name, two valid nodes with the same structured key
-(name parts + sibling-index path, exactly what `getHashCode` renders with length prefixes) are the
-same node.  The pinned key (no length prefixes, no prefix part) failed this. -/
-theorem key_injective {d : Doc} (wf : WF d) (hd : AttrNamesDistinct d) (hne : AttrNamesNonEmpty d)
-    (r₁ r₂ : Ref) (h₁ : validRef d r₁ = true) (h₂ : validRef d r₂ = true)
-    (h : keyStruct d r₁ = keyStruct d r₂) : r₁ = r₂ :=
-  keyStruct_inj wf hd hne r₁ r₂ h₁ h₂ h
-
-/-- the rendered index path of the model is a function of the structured key alone -/
-theorem rendered_key_from_struct (d : Doc) (r : Ref) :
-    indexChain d r = (indexPath d r).foldl (fun s n => s ++ "-" ++ toString n) "" :=
-  indexChain_eq d r
+/-- the parser side of the sequence form: along any run of comma-separated members the sequence
+loop returns `seqForm` -/
+theorem seqLoop_is_seqForm (cfg : PCfg) (inp : Ast) (f : Nat) (st stEnd : PState) (s : SeqStep)
+    (ts : List SeqStep) (h : SeqRun cfg inp f st ts stEnd) :
+    seqLoop f cfg inp (stepOn inp s) st = .ok (seqForm inp s ts, stEnd) :=
+  seqLoop_seqForm cfg inp f st stEnd s ts h
 
 end XPathV.Theorems.C11
